@@ -161,7 +161,7 @@ def symbolic_hook(run):
 
 
 def run_e2(I, flags, seq, argv_extra=None, hook_factory=symbolic_hook,
-           time_limit=None, numerics=None, solve=True, clock=False, argv_seq=None):
+           time_limit=None, numerics=None, solve=True, clock=False, argv_seq=None, text_kw=None):
     """Run the real Solver on shape I under the shim.  Must be called inside a
     pathsym exploration.  ``flags``: subset of {'twopl','pc','stab'}.
     ``seq``: ordered criteria [(crit, [args])] (args may be ints or z3 Ints)."""
@@ -181,8 +181,9 @@ def run_e2(I, flags, seq, argv_extra=None, hook_factory=symbolic_hook,
             return str(v)
         return e.token(v)
 
-    text = spec.inst_to_text(J, tok=tok)
+    text = spec.inst_to_text(J, tok=tok, **(text_kw or {}))
     run = E2Run()
+    run.text_kw = text_kw or {}
     run.ns = ns
     run.inst = J
     run.dom = dom
@@ -204,11 +205,42 @@ def run_e2(I, flags, seq, argv_extra=None, hook_factory=symbolic_hook,
         run.argv = argv
         shim.SOLVES.clear()
         shim.SOLVE_HOOK = hook_factory(run)
-        solver = ns.solver.Solver(argv)
+        try:
+            solver = ns.solver.Solver(argv)
+        except ValueError as ex:
+            if '@S' not in str(ex) or not free:
+                raise
+            # the reader converted a placeholder token with a converter the shadowed ``int`` does not reach (e.g. one bound
+            # at import time): fall back to pairwise-distinct sentinel integers in the file and put the symbols into the
+            # Model's documented numeric attributes after the import (column routing is then checked by sentinel identity)
+            solver = _sentinel_import(ns, run, J, free, path, argv, text_kw or {})
         run.solver = solver
         if solve:
             solver.solve(msg=False, timeLimit=time_limit, threads=None, write=False)
     return run
+
+
+def _sentinel_import(ns, run, J, free, path, argv, text_kw):
+    sent = {}
+    for i, v in enumerate(free):
+        sent[v.get_id()] = 1000003 + 7919 * i
+
+    def tok(v):
+        return str(v) if isinstance(v, int) else str(sent[v.get_id()])
+    text = spec.inst_to_text(J, tok=tok, **text_kw)
+    with open(path, 'w') as f:
+        f.write(text)
+    run.text = text
+    run.sentinel_mode = True
+    solver = ns.solver.Solver(argv)
+    back = {val: S.SymInt(v) for v in free for val in [sent[v.get_id()]]}
+    m = solver.model
+    for name in ('proj_lower_quotas', 'proj_upper_quotas', 'lec_lower_quotas', 'lec_targets', 'lec_upper_quotas'):
+        lst = getattr(m, name)
+        for i, val in enumerate(lst):
+            if not S.is_sym(val) and val in back:
+                lst[i] = back[val]
+    return solver
 
 
 def x_of(run, point):
